@@ -159,9 +159,16 @@ readArray:
 		if a.off >= len(a.tape.Tape) {
 			return nil, errors.New("corrupt input: array has no end")
 		}
-		tag := Tag(a.tape.Tape[a.off] >> 56)
+		v := a.tape.Tape[a.off]
+		tag := Tag(v >> 56)
 		a.off++
 		switch tag {
+		case TagNop:
+			// Deleted elements, skip.
+			if skip := int(v & JSONVALUEMASK); skip > 1 {
+				a.off += skip - 1
+			}
+			continue
 		case TagFloat:
 			if len(a.tape.Tape) <= a.off {
 				return nil, errors.New("corrupt input: expected float, but no more values")
@@ -201,9 +208,16 @@ readArray:
 		if a.off >= len(a.tape.Tape) {
 			return nil, errors.New("corrupt input: array has no end")
 		}
-		tag := Tag(a.tape.Tape[a.off] >> 56)
+		v := a.tape.Tape[a.off]
+		tag := Tag(v >> 56)
 		a.off++
 		switch tag {
+		case TagNop:
+			// Deleted elements, skip.
+			if skip := int(v & JSONVALUEMASK); skip > 1 {
+				a.off += skip - 1
+			}
+			continue
 		case TagFloat:
 			if len(a.tape.Tape) <= a.off {
 				return nil, errors.New("corrupt input: expected float, but no more values")
@@ -255,9 +269,16 @@ readArray:
 		if a.off >= len(a.tape.Tape) {
 			return nil, errors.New("corrupt input: array has no end")
 		}
-		tag := Tag(a.tape.Tape[a.off] >> 56)
+		v := a.tape.Tape[a.off]
+		tag := Tag(v >> 56)
 		a.off++
 		switch tag {
+		case TagNop:
+			// Deleted elements, skip.
+			if skip := int(v & JSONVALUEMASK); skip > 1 {
+				a.off += skip - 1
+			}
+			continue
 		case TagFloat:
 			if len(a.tape.Tape) <= a.off {
 				return nil, errors.New("corrupt input: expected float, but no more values")
